@@ -141,6 +141,8 @@ while True:
     db.Setting = calc()
     yield_()
 """, [{"append_version": False, "inline_functions": False, "tail_call_optimization": True, "use_push_pop_functions": True}])
+C["C09-line-separator-in-name"] = ("C09", H + """db.On = HASH('a\u2028b')
+""", [D])
 C["C09-bitwise-not-opcode"] = ("C09", H + """while True:
     db.Setting = ~d0.Setting
     yield_()
